@@ -142,6 +142,8 @@ inductive Step where
   | addr (a : Option Addr)
   | addrs (l : List Addr)
   | loc (ip : String)
+  /-- `take`: `ConnectInfo::take_addrs()` -/
+  | take
 
 /-! ### `http::Uri` requests: `u=<uri>` (http 1), `v=<uri>` (http 0.2)
 
@@ -227,7 +229,7 @@ def parseSteps (c : ConnCase) : List String → Option (List Step)
       | none =>
       match stripPrefix "local=" w with
       | some ip => (parseIpD ip).map Step.loc
-      | none => none
+      | none => if w == "take" then some Step.take else none
     match st, parseSteps c ws with
     | some s, some r => some (s :: r)
     | _, _ => none
@@ -299,15 +301,19 @@ def parseConnOp (c : ConnCase) (ws : List String) : Option ConnOp :=
     | _, _, _, _ => none
   | _ => none
 
-def buildReq (op : ConnOp) : Req :=
+/-- the request and what each `take_addrs()` handed out -/
+def buildReq (op : ConnOp) : Req × List (List Addr) :=
   let r0 := match op.withA with
     | some a => Req.withAddr op.host a
     | none => Req.new op.host
-  op.steps.foldl (fun r s => match s with
-    | .port p => r.setPort p
-    | .addr a => r.setAddr a
-    | .addrs l => r.setAddrs l
-    | .loc ip => r.setLocal ip) r0
+  op.steps.foldl (fun (acc : Req × List (List Addr)) s =>
+    let (r, tk) := acc
+    match s with
+    | .port p => (r.setPort p, tk)
+    | .addr a => (r.setAddr a, tk)
+    | .addrs l => (r.setAddrs l, tk)
+    | .loc ip => (r.setLocal ip, tk)
+    | .take => (r.takeAddrs.1, tk ++ [r.takeAddrs.2])) (r0, [])
 
 def lookupOf (res : Res) (h : String) (p : Nat) : Lookup :=
   match res with
@@ -340,7 +346,7 @@ def errStr : ConnectError → String
 def showHost (h : String) : String := if h.isEmpty then "~" else h
 
 def runConn (c : ConnCase) (op : ConnOp) : String :=
-  let r := buildReq op
+  let (r, taken) := buildReq op
   -- the resolver the service ends up with along its construction path
   let dfl : Res := match op.res with | .dflt ips => .dflt ips | _ => .dflt []
   let lookup := lookupOf (op.path.build dfl op.res).cfg
@@ -374,7 +380,9 @@ def runConn (c : ConnCase) (op : ConnOp) : String :=
       match c.eps[i]? with
       | some k => if k.live then (if peer.isSome && peer == c.addrOf i then "1" else "0") else "-"
       | none => "-"
-    s!"lk={lk} res={res} acc=[{",".intercalate acc}]"
+    let tk := if taken.isEmpty then "" else
+      " taken=" ++ "|".intercalate (taken.map fun l => "[" ++ ";".intercalate (l.map c.canon) ++ "]")
+    s!"lk={lk} res={res} acc=[{",".intercalate acc}]{tk}"
 
 def kvGet (k : String) (ws : List String) : Option String :=
   (ws.filterMap fun w =>
